@@ -2,15 +2,15 @@ SPEC = dict(
     id="C10",
     bin="c10",
     coq_dir="C10",
-    coq_targets=["C10/Proofs.vo", "C10/PointProofs.vo", "C10/IupProofs.vo", "C10/Examples.vo"],
+    coq_targets=["C10/Proofs.vo", "C10/PointProofs.vo", "C10/IupProofs.vo", "C10/IupUnforced.vo", "C10/Examples.vo"],
     allowed_axioms=[],
     level_text=("Unbounded Coq theorems about an executable model of the glyph-variation codecs and of the IUP optimiser's "
                 "structure: PackedDeltas and PackedPointNumbers round trips for every list of i32 / every non-decreasing u16 "
                 "list (by induction over the writer's run segmentation), legality of every run and control byte, "
                 "compute_size = written length; for EVERY kernel (must_encode / can_iup answers as Section variables) the "
-                "forced-point branch of iup_contour_optimize marks a delta optional only strictly between two consecutive "
-                "retained points whose segment the kernel approved, keeps forced points and at least one point, and preserves "
-                "length/order/values; rotation bookkeeping is a bijection. The model (incl. an exact rational kernel, the "
+                "optimiser (both the forced-point branch and the doubled-contour branch of iup_contour_optimize) marks a delta "
+                "optional only strictly between two consecutive retained points whose segment the kernel approved, keeps forced "
+                "points and at least one point, and preserves length/order/values; rotation bookkeeping is a bijection. The model (incl. an exact rational kernel, the "
                 "per-tuple gvar serialisation and shared-point choice) is tied to the code on every run: ~5.8k cases "
                 "byte-exact / decision-exact under vm_compute. The property's end-to-end clauses (optional deltas within "
                 "tolerance after the spec's inference; gvar read-back; outline at a location = default + sum scalar*delta up to "
@@ -19,15 +19,15 @@ SPEC = dict(
                 "tables and 5.7k draws — partial for those clauses."),
     level_note=("Trusted: Coq kernel; the hand-written model coq/C10/Model.v (agreement with the Rust code is checked, not proved); "
                 "the rational kernel equals the f64 kernel only where the harness's f64 mirror and exact arithmetic agree (cases "
-                "where they do not are not sent to the model; none occurred). Not proved: soundness of the no-forced-point branch, "
+                "where they do not are not sent to the model; none occurred). Not proved: DP optimality, "
                 "the kernel's meaning, tent scalars / accumulation / skrifa interpolation (oracle only). "
-                "One genuine defect found: F-C10-1 (see notes/C10.md)."),
+                "One genuine defect found (F-C10-1, fixed in /repo 5894623; its reproducer stays in the oracle; see notes/C10.md)."),
     technique="Coq proof (induction over run segmentation and over the DP chain; lia; finite sweeps for control bytes) over a hand-written Gallina model + vm_compute correspondence with write-fonts/read-fonts + exact-rational implementation oracles incl. skrifa draws",
     modelled=["write-fonts/src/tables/variations.rs: PackedDeltas::{iter_runs,compute_size}, PackedDeltaRun::*, PackedPointNumbers::{iter_runs,write_into,compute_size,validate}, PackedPointRun::*",
               "read-fonts/src/tables/variations.rs: DeltaRunType::new, DeltaRunIter, count_all_deltas, PackedDeltas::{consume_all,iter}, PackedPointNumbers::{count_and_count_bytes,total_len,split_off_front,iter}, PackedPointNumbersIter, PointRunIter",
               "write-fonts/src/tables/gvar/iup.rs: iup_delta_optimize, iup_contour_optimize (both branches), iup_contour_optimize_dp, iup_must_encode; kernel must_encode_at/iup_segment/can_iup_in_between as an exact rational re-implementation",
               "write-fonts/src/tables/gvar.rs: GlyphDeltas::{pick_best_point_number_repr,build}, GlyphTupleVariationData::{compute_size,write_into}, GlyphVariations::compute_shared_points"],
-    not_covered=["iup_sound for the no-forced-point branch (doubled contour): correspondence + oracle only",
+    not_covered=["optimality of the IUP dynamic programme (only soundness is proved)",
                  "f64 kernel bit-exactness (no Flocq model): rational kernel on inputs where f64 decisions are exact",
                  "TupleVariation::compute_scalar, accumulate_dense/sparse_deltas, skrifa deltas.rs interpolate_deltas: implementation-only draw oracle",
                  "gvar container (offsets array, short/long offsets, shared tuples): oracle + hand parser, not modelled",
